@@ -732,8 +732,12 @@ func (c *converter) Copy(destination string, source string, valueUsed bool, glob
 	c.sliceCopyHelperRequired = true
 	c.callFunc(sliceCopyHelper, []string{}, c.varName(destination, global), source)
 
+	helper := c.nextHelperVar()
+
 	c.callFunc(sliceLenGetHelper, []string{}, source) // The copied length is the length of the source.
-	return c.varEvaluationString("_len", true), nil
+	c.VarAssignment(helper, c.varEvaluationString("_len", true), false)
+
+	return c.VarEvaluation(helper, valueUsed, false)
 }
 
 func (c *converter) Exists(path string, valueUsed bool) (string, error) {
